@@ -58,6 +58,7 @@ def gen_programs(prop, seed, n, tier, outfile, profile="sweep_profile"):
 # pb: force alternative action c at decision d; pctA/pctB: at decision d the running task drops below every other
 # priority (it only resumes once everything else is blocked) - base priorities favour low / high task ids respectively
 MODES = {"pb": {"kind": "pb", "preempt": []},
+         "burst": {"kind": "pb", "preempt": []},        # at decision d every eligible timer fires, one after the other
          "pctA": {"kind": "pct", "prios": [5], "changes": []},
          "pctB": {"kind": "pct", "prios": [1, 3, 5, 7, 9, 11, 13, 15, 17, 19, 21, 23], "changes": []}}
 
@@ -75,6 +76,8 @@ def sweep_chunk(prop, case, d_lo, d_hi, cs, mode="pb"):
             k = dict(case)
             if mode == "pb":
                 k["schedule"] = {"kind": "pb", "preempt": [[d, c]]}
+            elif mode == "burst":
+                k["schedule"] = {"kind": "pb", "preempt": [[d, -50]]}
             else:
                 k["schedule"] = dict(MODES[mode], changes=[d])
             H = run_case(k, hooks=getattr(mod, "hooks", None))
